@@ -5,8 +5,6 @@ package main
 // classification the Coq model takes as input.
 
 import (
-	"bytes"
-	"encoding/json"
 	"fmt"
 	"sort"
 	"strings"
@@ -68,17 +66,19 @@ func (v *jv) del(key string) {
 	}
 }
 
+// writeCanonStr: byte-wise (a string may hold a lone surrogate in generalized form)
 func writeCanonStr(b *strings.Builder, s string) {
 	b.WriteByte('"')
-	for _, r := range s {
+	for i := 0; i < len(s); i++ {
+		c := s[i]
 		switch {
-		case r == '"' || r == '\\':
+		case c == '"' || c == '\\':
 			b.WriteByte('\\')
-			b.WriteRune(r)
-		case r < 0x20:
-			fmt.Fprintf(b, "\\u%04x", r)
+			b.WriteByte(c)
+		case c < 0x20:
+			fmt.Fprintf(b, "\\u%04x", c)
 		default:
-			b.WriteRune(r)
+			b.WriteByte(c)
 		}
 	}
 	b.WriteByte('"')
@@ -146,7 +146,15 @@ func (v *jv) render(r *common.Rand, b *strings.Builder, depth int) {
 	}
 	str := func(s string) {
 		b.WriteByte('"')
-		for _, c := range s {
+		for i := 0; i < len(s); {
+			if s[i] == 0xED && i+2 < len(s) && s[i+1] >= 0xA0 && s[i+1] <= 0xBF {
+				// a lone surrogate can only be written as an escape
+				fmt.Fprintf(b, "\\u%04x", 0xD000|int(s[i+1]&0x3F)<<6|int(s[i+2]&0x3F))
+				i += 3
+				continue
+			}
+			c, n := utf8.DecodeRuneInString(s[i:])
+			i += n
 			switch {
 			case c == '"' || c == '\\':
 				b.WriteByte('\\')
@@ -155,6 +163,9 @@ func (v *jv) render(r *common.Rand, b *strings.Builder, depth int) {
 				fmt.Fprintf(b, "\\u%04x", c)
 			case r != nil && c < 0x7f && r.Intn(12) == 0:
 				fmt.Fprintf(b, "\\u%04x", c) // gratuitous escape
+			case r != nil && c > 0xFFFF && r.Bool():
+				c -= 0x10000
+				fmt.Fprintf(b, "\\u%04x\\u%04x", 0xD800+(c>>10), 0xDC00+(c&0x3FF)) // surrogate pair
 			case c == '/' && r != nil && r.Bool():
 				b.WriteString("\\/")
 			default:
@@ -213,80 +224,292 @@ func (v *jv) text(r *common.Rand) string {
 	return b.String()
 }
 
-// parseJSON parses with encoding/json (numbers kept as text).  ok=false when the
-// text is not exactly one JSON value or an object has a duplicate key.
+// parseJSON is the harness's OWN JSON reader (RFC 8259 grammar, recursive
+// descent) -- independent of encoding/json, which reads strings lossily.
+// Numbers are kept as text.  Strings are decoded to BYTES: escapes resolved,
+// surrogate pairs combined, and a LONE surrogate escape (\ud800) kept as its
+// 3-byte generalized UTF-8 form (ED A0..BF 80..BF) so that it stays distinct
+// from U+FFFD.  ok=false when the text is not exactly one JSON value (white
+// space around it allowed), is not valid UTF-8, or an object has a duplicate key.
 func parseJSON(data []byte) (*jv, bool) {
 	if !utf8.Valid(data) {
 		return nil, false
 	}
-	dec := json.NewDecoder(bytes.NewReader(data))
-	dec.UseNumber()
-	v, ok := parseValue(dec)
+	p := &jparser{d: data}
+	p.ws()
+	v, ok := p.value(0)
 	if !ok {
 		return nil, false
 	}
-	if _, err := dec.Token(); err == nil {
-		return nil, false // trailing value
+	p.ws()
+	if p.i != len(p.d) {
+		return nil, false
 	}
 	return v, true
 }
 
-func parseValue(dec *json.Decoder) (*jv, bool) {
-	t, err := dec.Token()
-	if err != nil {
+type jparser struct {
+	d []byte
+	i int
+}
+
+func (p *jparser) ws() {
+	for p.i < len(p.d) && (p.d[p.i] == ' ' || p.d[p.i] == '\t' || p.d[p.i] == '\n' || p.d[p.i] == '\r') {
+		p.i++
+	}
+}
+
+func (p *jparser) lit(s string) bool {
+	if strings.HasPrefix(string(p.d[p.i:min(len(p.d), p.i+len(s))]), s) {
+		p.i += len(s)
+		return true
+	}
+	return false
+}
+
+func (p *jparser) value(depth int) (*jv, bool) {
+	if p.i >= len(p.d) || depth > 200 {
 		return nil, false
 	}
-	switch x := t.(type) {
-	case nil:
-		return jnull(), true
-	case bool:
-		return &jv{k: jBool, b: x}, true
-	case json.Number:
-		return &jv{k: jNum, s: string(x)}, true
-	case string:
-		return jstr(x), true
-	case json.Delim:
-		switch x {
-		case '[':
-			v := &jv{k: jArr}
-			for dec.More() {
-				e, ok := parseValue(dec)
-				if !ok {
-					return nil, false
-				}
-				v.arr = append(v.arr, e)
-			}
-			if _, err := dec.Token(); err != nil {
-				return nil, false
-			}
-			return v, true
-		case '{':
-			v := &jv{k: jObj}
-			seen := map[string]bool{}
-			for dec.More() {
-				kt, err := dec.Token()
-				if err != nil {
-					return nil, false
-				}
-				key, isStr := kt.(string)
-				if !isStr || seen[key] {
-					return nil, false
-				}
-				seen[key] = true
-				e, ok := parseValue(dec)
-				if !ok {
-					return nil, false
-				}
-				v.obj = append(v.obj, jkv{key, e})
-			}
-			if _, err := dec.Token(); err != nil {
-				return nil, false
-			}
+	switch c := p.d[p.i]; {
+	case c == 'n':
+		return jnull(), p.lit("null")
+	case c == 't':
+		return &jv{k: jBool, b: true}, p.lit("true")
+	case c == 'f':
+		return &jv{k: jBool}, p.lit("false")
+	case c == '"':
+		s, ok := p.str()
+		return jstr(s), ok
+	case c == '[':
+		p.i++
+		v := &jv{k: jArr}
+		p.ws()
+		if p.i < len(p.d) && p.d[p.i] == ']' {
+			p.i++
 			return v, true
 		}
+		for {
+			p.ws()
+			e, ok := p.value(depth + 1)
+			if !ok {
+				return nil, false
+			}
+			v.arr = append(v.arr, e)
+			p.ws()
+			if p.i >= len(p.d) {
+				return nil, false
+			}
+			if p.d[p.i] == ',' {
+				p.i++
+				continue
+			}
+			if p.d[p.i] == ']' {
+				p.i++
+				return v, true
+			}
+			return nil, false
+		}
+	case c == '{':
+		p.i++
+		v := &jv{k: jObj}
+		seen := map[string]bool{}
+		p.ws()
+		if p.i < len(p.d) && p.d[p.i] == '}' {
+			p.i++
+			return v, true
+		}
+		for {
+			p.ws()
+			if p.i >= len(p.d) || p.d[p.i] != '"' {
+				return nil, false
+			}
+			key, ok := p.str()
+			if !ok || seen[key] {
+				return nil, false
+			}
+			seen[key] = true
+			p.ws()
+			if p.i >= len(p.d) || p.d[p.i] != ':' {
+				return nil, false
+			}
+			p.i++
+			p.ws()
+			e, ok := p.value(depth + 1)
+			if !ok {
+				return nil, false
+			}
+			v.obj = append(v.obj, jkv{key, e})
+			p.ws()
+			if p.i >= len(p.d) {
+				return nil, false
+			}
+			if p.d[p.i] == ',' {
+				p.i++
+				continue
+			}
+			if p.d[p.i] == '}' {
+				p.i++
+				return v, true
+			}
+			return nil, false
+		}
+	case c == '-' || (c >= '0' && c <= '9'):
+		j := p.i
+		if p.d[j] == '-' {
+			j++
+		}
+		if j >= len(p.d) {
+			return nil, false
+		}
+		if p.d[j] == '0' {
+			j++
+		} else if p.d[j] >= '1' && p.d[j] <= '9' {
+			for j < len(p.d) && p.d[j] >= '0' && p.d[j] <= '9' {
+				j++
+			}
+		} else {
+			return nil, false
+		}
+		if j < len(p.d) && p.d[j] == '.' {
+			j++
+			k := j
+			for j < len(p.d) && p.d[j] >= '0' && p.d[j] <= '9' {
+				j++
+			}
+			if j == k {
+				return nil, false
+			}
+		}
+		if j < len(p.d) && (p.d[j] == 'e' || p.d[j] == 'E') {
+			j++
+			if j < len(p.d) && (p.d[j] == '+' || p.d[j] == '-') {
+				j++
+			}
+			k := j
+			for j < len(p.d) && p.d[j] >= '0' && p.d[j] <= '9' {
+				j++
+			}
+			if j == k {
+				return nil, false
+			}
+		}
+		v := &jv{k: jNum, s: string(p.d[p.i:j])}
+		p.i = j
+		return v, true
 	}
 	return nil, false
 }
+
+func hex4(b []byte) (int, bool) {
+	if len(b) < 4 {
+		return 0, false
+	}
+	n := 0
+	for _, c := range b[:4] {
+		switch {
+		case c >= '0' && c <= '9':
+			n = n*16 + int(c-'0')
+		case c >= 'a' && c <= 'f':
+			n = n*16 + int(c-'a') + 10
+		case c >= 'A' && c <= 'F':
+			n = n*16 + int(c-'A') + 10
+		default:
+			return 0, false
+		}
+	}
+	return n, true
+}
+
+// wtf8 appends code point r; a surrogate is written in the generalized 3-byte form.
+func wtf8(out []byte, r int) []byte {
+	if r >= 0xD800 && r <= 0xDFFF {
+		return append(out, byte(0xE0|r>>12), byte(0x80|(r>>6)&0x3F), byte(0x80|r&0x3F))
+	}
+	return utf8.AppendRune(out, rune(r))
+}
+
+func (p *jparser) str() (string, bool) {
+	p.i++ // opening quote
+	var out []byte
+	for p.i < len(p.d) {
+		c := p.d[p.i]
+		switch {
+		case c == '"':
+			p.i++
+			return string(out), true
+		case c < 0x20:
+			return "", false
+		case c == '\\':
+			if p.i+1 >= len(p.d) {
+				return "", false
+			}
+			e := p.d[p.i+1]
+			p.i += 2
+			switch e {
+			case '"', '\\', '/':
+				out = append(out, e)
+			case 'b':
+				out = append(out, '\b')
+			case 'f':
+				out = append(out, '\f')
+			case 'n':
+				out = append(out, '\n')
+			case 'r':
+				out = append(out, '\r')
+			case 't':
+				out = append(out, '\t')
+			case 'u':
+				r, ok := hex4(p.d[p.i:])
+				if !ok {
+					return "", false
+				}
+				p.i += 4
+				if r >= 0xD800 && r <= 0xDBFF && p.i+6 <= len(p.d) && p.d[p.i] == '\\' && p.d[p.i+1] == 'u' {
+					if lo, ok := hex4(p.d[p.i+2:]); ok && lo >= 0xDC00 && lo <= 0xDFFF {
+						p.i += 6
+						out = utf8.AppendRune(out, rune(0x10000+(r-0xD800)<<10+(lo-0xDC00)))
+						continue
+					}
+				}
+				out = wtf8(out, r)
+			default:
+				return "", false
+			}
+		default:
+			out = append(out, c)
+			p.i++
+		}
+	}
+	return "", false
+}
+
+// goString is the Go string encoding/json produces for a JSON string the own
+// reader decoded to s: a lone surrogate becomes ONE U+FFFD (other invalid bytes
+// cannot occur: the file is valid UTF-8).  Written independently of Model/Utf8.v.
+func goString(s string) string {
+	if utf8.ValidString(s) {
+		return s
+	}
+	var b strings.Builder
+	for i := 0; i < len(s); {
+		if s[i] == 0xED && i+2 < len(s) && s[i+1] >= 0xA0 && s[i+1] <= 0xBF && s[i+2] >= 0x80 && s[i+2] <= 0xBF {
+			b.WriteString("\uFFFD")
+			i += 3
+			continue
+		}
+		r, n := utf8.DecodeRuneInString(s[i:])
+		if r == utf8.RuneError && n == 1 {
+			b.WriteString("\uFFFD")
+		} else {
+			b.WriteString(s[i : i+n])
+		}
+		i += n
+	}
+	return b.String()
+}
+
+func hasLoneSurrogate(s string) bool { return goString(s) != s }
 
 // ---------- classification for the model ----------
 
@@ -297,8 +520,10 @@ func kindOf(v *jv) string {
 	case jStr:
 		return "str"
 	case jObj:
+		// "objstr": what json.Unmarshal accepts into a map[string]string -- every member a
+		// string or null (a null member leaves the zero value)
 		for _, kv := range v.obj {
-			if kv.val.k != jStr {
+			if kv.val.k != jStr && kv.val.k != jNull {
 				return "obj"
 			}
 		}
@@ -314,7 +539,7 @@ func freshShape(e *jv) (auth, idtok, regtok string, ok bool) {
 		return
 	}
 	for _, kv := range e.obj {
-		if kv.val.k != jStr || kv.val.s == "" {
+		if kv.val.k != jStr || kv.val.s == "" || hasLoneSurrogate(kv.val.s) {
 			return "", "", "", false
 		}
 		switch kv.key {
@@ -352,7 +577,7 @@ func entryToken(e *jv) string {
 					}
 					switch kv.val.k {
 					case jStr:
-						vals[i] = kv.val.s
+						vals[i] = goString(kv.val.s) // as encoding/json decodes it
 					case jNull:
 					default:
 						return fmt.Sprintf("O %s E", raw)
